@@ -358,7 +358,8 @@ impl PtraceDumper {
         // tool, so we poll the status.
         const POLL_INTERVAL: Duration = Duration::from_millis(1);
         let proc_file = format!("/proc/{}/stat", self.pid);
-        let end = Instant::now() + timeout;
+        // A timeout too large to be added to the current time (e.g. `Duration::MAX`) means "no deadline".
+        let end = Instant::now().checked_add(timeout);
 
         loop {
             if let Ok(ProcState::Stopped) = Stat::from_file(&proc_file)?.state() {
@@ -366,7 +367,7 @@ impl PtraceDumper {
             }
 
             std::thread::sleep(POLL_INTERVAL);
-            if Instant::now() > end {
+            if end.is_some_and(|end| Instant::now() > end) {
                 return Err(StopProcessError::Timeout);
             }
         }
